@@ -70,7 +70,7 @@ package measurements
 //@   requires cfg: 1 <= window && window < 1<<31 && 1 <= warmupWindow && warmupWindow < 1<<31
 //@   ghostset result.lo = 0.0
 //@   ghostset result.hi = 0.0
-//@   ensures[C18] fresh_state: fresh(result) && inv(result) && result.value == 0.0 && result.sum == 0.0 && result.count == 0 && result.window == window && result.warmupWindow == warmupWindow
+//@   ensures[C04,C18] fresh_state: fresh(result) && inv(result) && result.value == 0.0 && result.sum == 0.0 && result.count == 0 && result.window == window && result.warmupWindow == warmupWindow
 //@   assigns nothing
 
 //@ func (*ExponentialAverageMeasurement).Add
@@ -111,8 +111,11 @@ package measurements
 //@   inv[C18] finite: isFinite(this.value)
 
 //@ func NewSimpleExponentialMovingAverage
+//@   ensures[C18] value_or_error: (ret0 == nil) <==> (ret1 != nil)
+//@   requires number: !isNaN(alpha)
+//@   establishes[C18] ret0 != nil ==> ret0
 //@   ensures[C18] rejects: (alpha < 0.0 || alpha > 1.0) ==> ret0 == nil && ret1 != nil
-//@   ensures[C18] fresh_state: 0.0 <= alpha && alpha <= 1.0 ==> ret0 != nil && ret1 == nil && ret0.alpha == alpha && ret0.initialAlpha == alpha && ret0.seenSamples == 0 && ret0.value == 0.0
+//@   ensures[C18] fresh_state: 0.0 <= alpha && alpha <= 1.0 ==> ret0 != nil && fresh(ret0) && ret1 == nil && ret0.alpha == alpha && ret0.initialAlpha == alpha && ret0.seenSamples == 0 && ret0.value == 0.0
 //@   assigns nothing
 
 //@ func (*SimpleExponentialMovingAverage).add
@@ -249,3 +252,22 @@ package measurements
 //@ func (*ImmutableSampleWindow).DidDrop
 //@   ensures[C09,C18] value: result == s.didDrop
 //@   assigns nothing
+
+// Constructors of the moving statistics: the induction base of their invariants.
+//@ func NewSimpleMovingVariance
+//@   ensures[C18] value_or_error: (ret0 == nil) <==> (ret1 != nil)
+//@   requires numbers: !isNaN(alphaAverage) && !isNaN(alphaVariance)
+//@   establishes[C18] ret0 != nil ==> ret0
+//@   ensures[C18] fresh_state: ret0 != nil ==> ret1 == nil && fresh(ret0) && ret0.average.value == 0.0 && ret0.variance.value == 0.0 && ret0.average.seenSamples == 0 && ret0.variance.seenSamples == 0
+//@   ensures[C18] rejects: (alphaAverage < 0.0 || alphaAverage > 1.0 || alphaVariance < 0.0 || alphaVariance > 1.0) ==> ret0 == nil && ret1 != nil
+//@ func NewWindowlessMovingPercentile
+//@   ensures[C18] value_or_error: (ret0 == nil) <==> (ret1 != nil)
+//@   requires numbers: !isNaN(movingAvgAlphaAvg) && !isNaN(movingVarianceAlphaVar) && isFinite(deltaInitial) && !isNaN(p)
+//@   establishes[C18] ret0 != nil ==> ret0
+//@   ensures[C18] fresh_state: ret0 != nil ==> ret1 == nil && fresh(ret0) && ret0.p == p && ret0.delta == deltaInitial && ret0.deltaInitial == deltaInitial
+//@   ensures[C18] rejects: (p <= 0.0 || p >= 1.0) ==> ret0 == nil && ret1 != nil
+
+// The zero value is a valid (empty) minimum: induction base, see zz_lemmas_verif.go.
+//@ func zeroMinimumMeasurement
+//@   establishes[C15,C18] result
+//@   ensures[C15,C18] empty: result != nil && fresh(result) && result.value == 0.0
